@@ -31,6 +31,7 @@ func runC12(r *Run, verifDir string) {
 	c12A3(r)
 	c12A3Negotiate(r)
 	c12A4(r)
+	c12A5(r)
 }
 
 func c12A1(r *Run, reg *Registry) {
@@ -670,6 +671,29 @@ func runC13(r *Run, verifDir string) {
 		r.Bad("C13.N2", "kmipclient.Client.negotiateVersion/selection", nv.Pos(), "the adopted version is picked from the server's list by a fixed position: for an unordered or foreign list no fixed position is the highest common version")
 	case maxIdiom:
 		r.OK("C13.N2", "kmipclient.Client.negotiateVersion/selection", nv.Pos(), "a candidate replaces the current best only when CompareVersions(candidate, best) > 0")
+	case scanOwn && func() bool {
+		// the candidate's presence in the server's list must be established by a linear search: the order of the
+		// server's answer is not under the client's control, so a bisection (slices.BinarySearch*, sort.Search*) over
+		// it misses entries of a list that is not sorted the way the comparator expects
+		bis := token.NoPos
+		allInstrs(nv, func(in ssa.Instruction) {
+			c, ok := in.(*ssa.Call)
+			if !ok {
+				return
+			}
+			id := callID(&c.Call)
+			if (id.pkg == "slices" && strings.HasPrefix(id.name, "BinarySearch")) || (id.pkg == "sort" && strings.HasPrefix(id.name, "Search")) {
+				if len(c.Call.Args) > 0 && !isSupportedVersions(c.Call.Args[0]) {
+					bis = c.Pos()
+				}
+			}
+		})
+		if bis.IsValid() {
+			r.Bad("C13.N2", "kmipclient.Client.negotiateVersion/selection", bis, "the server's version list is searched by bisection: that finds an entry only in a list sorted exactly as the comparator expects, and the order of the server's answer is not under the client's control (the library's own server answers in ascending order after SetSupportedProtocolVersions): a common version is missed, negotiation fails or settles on a lower version")
+			return true
+		}
+		return false
+	}():
 	case scanOwn:
 		if why := c13ClientListDescending(p); why == "" {
 			r.OK("C13.N2", "kmipclient.Client.negotiateVersion/selection", nv.Pos(), "the client's own list is scanned in order and is kept strictly descending (default literal and WithKmipVersions)")
@@ -1257,5 +1281,36 @@ func c12A3Negotiate(r *Run) {
 		r.Unk("C12.A3", key, nv.Pos(), "no assignment of Client.version found")
 	default:
 		r.OK("C12.A3", key, nv.Pos(), "%d assignment(s) of the adopted version, each under Err() == nil or on the not-supported fallback", n)
+	}
+}
+
+// c12A5: standard-library helpers that panic on an empty slice (slices.Max/Min/MaxFunc/MinFunc) are applied, in
+// the client, only to slices proven non-empty where they are called: what remains of a server's list after
+// filtering can be empty whatever the list was.
+func c12A5(r *Run) {
+	p := r.P
+	r.Rule("C12.A5", "no library call that panics on an empty slice is made on data derived from a response without a dominating non-empty test", 1)
+	n := 0
+	for _, fn := range pkgFuncs(p, "kmipclient") {
+		allInstrs(fn, func(in ssa.Instruction) {
+			call, ok := in.(*ssa.Call)
+			if !ok {
+				return
+			}
+			id := callID(&call.Call)
+			if id.pkg != "slices" || (id.name != "Max" && id.name != "Min" && id.name != "MaxFunc" && id.name != "MinFunc") || len(call.Call.Args) == 0 {
+				return
+			}
+			n++
+			key := fmt.Sprintf("%s/%s#%d", fnKey(fn), id.name, n)
+			if lenLowerBound(call.Call.Args[0], call) >= 1 {
+				r.OK("C12.A5", key, call.Pos(), "slices.%s on a slice proven non-empty by a dominating length test", id.name)
+			} else {
+				r.Bad("C12.A5", key, call.Pos(), "%s calls slices.%s, which panics on an empty slice, without a dominating test that the slice is non-empty: a server answer that leaves nothing after filtering (e.g. a version list with no common entry) makes the client panic instead of returning an error", fnKey(fn), id.name)
+			}
+		})
+	}
+	if n == 0 {
+		r.OK("C12.A5", "kmipclient/no-empty-panicking-call", token.NoPos, "no slices.Max/Min/MaxFunc/MinFunc call in the client")
 	}
 }
